@@ -322,7 +322,8 @@ def _r7(ctx: Context, tree: str, N: Names, h2c, rule: str = "C01.R7") -> None:
                 else:
                     detail += ": key is neither the routine's stream_id nor the event's own stream_id"
                 rep.ob(rule, fkey(tree, f, norm(p if p is not None else sub)[:70]), ok, where(f, sub), detail)
-    rep.floor(rule, f"accesses to the HTTP/2 event table ({tree})", n, 4)
+    rep.floor(rule, f"accesses to the HTTP/2 event table ({tree})", n, 3)
+    stream_table_census(ctx, rule, tree, N, h2c)
     # reads of the table by .get(): key must be the routine's stream id
     for f in h2c.methods.values():
         for c in calls_named(f, "get"):
@@ -374,3 +375,42 @@ def _r8(ctx: Context, tree: str, N: Names, h11c, h2c) -> None:
             ok = ok or (flag and rer and covers)
         rep.ob("C01.R8", fkey(tree, f, "error-flag"), ok, where(f), "a network failure marks the HTTP/2 connection errored (unavailable for new requests) and re-raises" if ok else
                f"{f.short}: a failed network operation does not set the connection-error flag / is not re-raised: the broken connection keeps accepting requests")
+
+
+DICT_CREATORS = {"setdefault", "update", "__setitem__", "fromkeys"}
+DICT_REMOVERS = {"pop", "popitem", "clear", "__delitem__"}
+
+
+def stream_table_census(ctx: Context, rule: str, tree: str, N: Names, h2c) -> None:
+    """Entries of the open-stream table are created only where a stream id is allocated (request routine) and
+    removed only by the response-close routine: the ACTIVE -> IDLE transition and event routing depend on it."""
+    rep = ctx.rep
+    creators, removers = [], []
+    for f in h2c.methods.values():
+        if f.name == "__init__":
+            continue
+        for n in own_nodes(f.node):
+            if isinstance(n, ast.Subscript) and norm(n.value) == "self._events" and isinstance(n.ctx, ast.Store):
+                creators.append((f, n, "store"))
+            elif isinstance(n, ast.Subscript) and norm(n.value) == "self._events" and isinstance(n.ctx, ast.Del):
+                removers.append((f, n, "del"))
+            elif isinstance(n, ast.Call) and isinstance(n.func, ast.Attribute) and norm(n.func.value) == "self._events":
+                if n.func.attr in DICT_CREATORS:
+                    creators.append((f, n, n.func.attr))
+                elif n.func.attr in DICT_REMOVERS:
+                    removers.append((f, n, n.func.attr))
+            elif isinstance(n, ast.Attribute) and norm(n) == "self._events" and isinstance(n.ctx, ast.Store):
+                creators.append((f, n, "rebind"))
+    req = N.t("handle_async_request")
+    for f, n, kind in creators:
+        ok = f.name == req and kind == "store"
+        rep.ob(rule, fkey(tree, f, f"stream-table-create:{kind}"), ok, where(f, n),
+               "stream table entry created at stream allocation" if ok else
+               f"`{ast.unparse(n)[:70]}` creates an open-stream table entry outside the stream allocation: an entry for a stream nobody owns is never removed, "
+               "so the connection never looks idle again (and late frames of a closed stream are queued instead of dropped)")
+    for f, n, kind in removers:
+        ok = f.name == "_response_closed"
+        rep.ob(rule, fkey(tree, f, f"stream-table-remove:{kind}"), ok, where(f, n),
+               "stream table entry removed by the response-close routine" if ok else f"`{ast.unparse(n)[:70]}` removes an open-stream table entry outside _response_closed")
+    if not creators:
+        rep.ob(rule, fkey(tree, h2c.methods[req], "stream-table-create:none"), False, where(h2c.methods[req]), "no open-stream table entry is ever created")
